@@ -1,10 +1,10 @@
 (* C04 — decision-table model of "does backend b accept a sequence with features f?".
    Definitions only.  The SV constructor guards (Gen/SvGuards.v) and the emu-mps dispatcher and
-   DMRG guard (Gen/Guards.v) are regenerated from the source on every run; the pulser-adapter
+   DMRG guard (Gen/Dispatch.v) are regenerated from the source on every run; the pulser-adapter
    stages (Lindblad operator construction, channel checks) and emu-sv's run-time Lindblad shape
    assertion are hand-written here and validated by the exhaustive correspondence. *)
 From Coq Require Import ZArith Bool List String.
-From EV Require Import Base.Arith Gen.Guards Gen.SvGuards Model.ConfigGuards.
+From EV Require Import Base.Arith Gen.Dispatch Gen.SvGuards Model.DispatchModel.
 Import ListNotations.
 Open Scope Z_scope.
 
